@@ -722,7 +722,7 @@ def check_copy(ck: Checker, eff: Effects, R='C02.COPY'):
                     ok, why = _fresh_for_store(fn, arg, params)
                     ck.check(ok, R, mm, node, f'Block(..., {pn}=...) receives a freshly allocated list', why,
                              construct=f'{mm.qualname_of(node)}: Block {pn}={norm(arg)[:80]}')
-    ck.need(n_block >= 3, f'only {n_block} Block(...) constructions found (3 confirmed)')
+    ck.need(n_block >= 1, f'no Block(...) construction found (3 on the pinned tree)')
     # __copy__ passes everything through copying APIs
     fn = m.func('Circuit.__copy__')
     calls = {call_name(c) for c in calls_in(fn) if isinstance(c.func, ast.Attribute) and norm(c.func.value) == 'new_circuit'}
